@@ -286,8 +286,12 @@ def simplify(F, n, rounds=6):
             r = st["r"]; k = r["k"]
             if k == "use" and op_bad(r["o"], (sb, si)):
                 return True
-            if k in ("discr", "ref", "rawptr") and place_bad(r["p"], (sb, si)):
+            if k == "discr" and place_bad(r["p"], (sb, si)):
                 return True
+            if k in ("ref", "rawptr"):
+                # an address: depends on the pointer it is computed from (if any), never on what the memory holds
+                if any(p["k"] == "deref" for p in r["p"]["p"]) and reads_memory(fl, r["p"]["l"], (sb, si), depth + 1, seen):
+                    return True
             if k == "cast" and op_bad(r["o"], (sb, si)):
                 return True
             if k == "binop" and (op_bad(r["a"], (sb, si)) or op_bad(r["b"], (sb, si))):
